@@ -87,6 +87,22 @@ class Dual(object):
         yield (self.tag, "dual-computed", self.n)
 
 
+class RunNoneAttrs(object):
+    """a run element carrying the attributes fill, compute and request with the value None
+    (lena's adapters switch methods off this way, e.g. FillRequest around a run element)"""
+    fill = None
+    compute = None
+    request = None
+
+    def __init__(self, tag, log):
+        self.tag, self.log = tag, log
+
+    def run(self, flow):
+        self.log.append((self.tag, "run"))
+        for v in flow:
+            yield (self.tag, "n", v)
+
+
 class Post(object):
     def __call__(self, r):
         return ("post", r)
@@ -149,6 +165,9 @@ def mk_branch(spec, tag, log):
         return (Run(None, run=run),)
     if k == "slice":
         return Sequence(Slice(spec[1]), lambda v: (tag, "s", v))
+    if k == "run_none":
+        el = RunNoneAttrs(tag, log)
+        return el if spec[1] else (el,)
     if k == "seq_dual":
         # an explicit Sequence is run block by block whatever methods its elements have besides run
         return Sequence(Dual(tag, log))
@@ -219,6 +238,8 @@ class RefBranch(object):
             return [(tag, "s", v) for v in block[:self.spec[1]]]
         if k == "seq_dual":
             return [(tag, "d", v) for v in block]
+        if k == "run_none":
+            return [(tag, "n", v) for v in block]
         raise AssertionError(k)
 
 
@@ -297,6 +318,7 @@ spec_strat = st.one_of(
     st.just(["map"]), st.just(["map_t"]), st.just(["filt"]), st.just(["exp"]), st.just(["tail"]),
     st.builds(lambda k: ["slice", k], st.integers(0, 3)),
     st.just(["seq_dual"]),
+    st.builds(lambda bare: ["run_none", bare], st.integers(0, 1)),
 )
 
 
@@ -354,7 +376,7 @@ def judge_run(case):
             c = log.count((i, "request"))
             if c != calls[i]:
                 raise Violation("fill-request-branch-request-count", "branch %d: request called %d times, expected %d; %s" % (i, c, calls[i], short(case)))
-        elif s[0] in ("filt", "exp", "tail", "seq_dual"):
+        elif s[0] in ("filt", "exp", "tail", "seq_dual", "run_none"):
             c = log.count((i, "run"))
             if c != calls[i]:
                 raise Violation("sequence-branch-run-count", "branch %d: run called %d times, expected %d; %s" % (i, c, calls[i], short(case)))
@@ -419,7 +441,19 @@ def judge_common(case):
         return {"nontrivial": False, "classes": [typ]}
     if typ == "source":
         sp = Split(branches)
-        got = list(sp())
+        del log[:]
+        it = sp()
+        if log:
+            raise Violation("split-call-works-before-demand", "%s: events %s before the first result was asked for" % (specs, short(log)))
+        got = []
+        for x in it:
+            # a Source is called when it is reached: when its first result is handed over, exactly the Sources
+            # up to its own have been called (empty ones in between included)
+            called = [t for t, what in log if what == "call"]
+            if called != list(range(x[0] + 1)):
+                raise Violation("split-call-calls-a-source-before-it-is-reached",
+                                "%s: when result %s arrives the Sources called so far are %s" % (specs, short(x), called))
+            got.append(x)
         exp = [x for r in refs for x in r.source_out()]
         if got != exp:
             raise Violation("split-call-differs", "%s: %s expected %s" % (specs, short(got), short(exp)))
